@@ -22,7 +22,7 @@ ProjQ(qq) == <<qq.prog, qq.nw, [i \in 1..Len(qq.ps) |-> <<qq.ps[i].p, qq.ps[i].s
 Contacted(mm) == {mm.contacted[i].p : i \in 1..Len(mm.contacted)}
 InFlight(mm, now) == {i \in 1..Len(mm.contacted) : mm.contacted[i].p \notin mm.reported /\ now < mm.contacted[i].t + mm.cfg.pto}
 
-MonStep(mm, e) ==
+MonStep0(mm, e) ==
   LET op == e.op  now == e.now
       isC == e.ret[1] = "contact"
       acc == op.o = "on_success" /\ op.p \in Contacted(mm) /\ op.p \notin mm.reported /\ ~mm.finished
@@ -38,7 +38,8 @@ MonStep(mm, e) ==
              !.everStalled = @ \/ e.st[1] = "Stalled",
              !.finished = @ \/ e.ret[1] = "Finished"]
 
-MonViol(mm, m2, e) ==
+MonStep(mm, e) == IF e.ret[1] = "panic" THEN mm ELSE MonStep0(mm, e)
+MonViol0(mm, m2, e) ==
   LET op == e.op IN
   \* C09: no peer is asked twice
   (IF (e.ret[1] = "contact" /\ e.ret[2] \in Contacted(mm))
@@ -63,8 +64,9 @@ MonViol(mm, m2, e) ==
                    \E p \in good : p \notin {r[i] : i \in 1..Len(r)} /\ (Len(r) < mm.cfg.nr \/ \E i \in 1..Len(r) : r[i] > p)
                 THEN {"C10.MissingCloser"} ELSE {})
         ELSE {})
-  \cup (IF e.ret[1] = "panic" THEN {"Panic"} ELSE {})
 
+\* a panic of the state machine is data: the lookup it belongs to can no longer terminate or hand over its result
+MonViol(mm, m2, e) == IF e.ret[1] = "panic" THEN {"Panic"} ELSE MonViol0(mm, m2, e)
 Next ==
   /\ l <= Len(Rec) /\ l' = l + 1
   /\ LET e == Rec[l] IN
@@ -77,7 +79,8 @@ Next ==
           /\ UNCHANGED <<viols, sr>>
      ELSE /\ m' = MonStep(m, e)
           /\ viols' = viols \o SetToSeq({<<l, f>> : f \in MonViol(m, m', e)})
-          /\ IF STRICT /\ e.op.o \in {"next", "on_success", "on_failure", "tick"}
+          /\ IF STRICT /\ e.ret[1] = "panic" THEN FALSE ELSE
+             IF STRICT /\ e.op.o \in {"next", "on_success", "on_failure", "tick"}
              THEN /\ sr' = QStep(q, e.op, e.now)
                   /\ sr'.ret = e.ret /\ ProjQ(sr'.q) = e.st /\ q' = sr'.q
              ELSE IF STRICT /\ e.op.o = "result"
